@@ -150,7 +150,13 @@ pub fn run08(a: &Args) -> Batch {
         }
         cases.push(Case {
             post: String::new(),
-            term: format!("(mkC08 {}\n {} {})", props::eprops(&ind.props), impl_term, coq::b(finite)),
+            term: format!(
+                "(mkC08 {}\n {} {} {})",
+                props::eprops(&ind.props),
+                impl_term,
+                coq::b(finite),
+                coq::list(&m.thermal_bridges, |t| format!("({}, mkTbP {} {} {})", coq::id(t.id), coq::tbkind(t.kind), props::qz(t.l), props::qz(t.psi)))
+            ),
             json: json!({"origin": origin, "model": serde_json::to_value(&m).unwrap(), "K_data": kj, "nonfinite": props::nonfinite_report(&ind.props)}),
             nontrivial: nenv >= 2,
         });
@@ -199,7 +205,7 @@ pub fn run09(a: &Args) -> Batch {
         }
         cases.push(Case {
             post: String::new(),
-            term: format!("(mkC09 {}\n {} {})", props::eprops(&ind.props), impl_term, coq::b(finite)),
+            term: format!("(mkC09 {}\n {} {} {})", props::eprops(&ind.props), impl_term, coq::b(finite), coq::optq(&m.meta.n50_test_ach)),
             json: json!({"origin": origin, "model": serde_json::to_value(&m).unwrap(), "n50_data": serde_json::to_value(d).unwrap(), "nonfinite": props::nonfinite_report(&ind.props)}),
             nontrivial: d.walls_a > 0.001 && d.vol > 0.001,
         });
